@@ -3,6 +3,7 @@
 
   patch_matrix.py seeds    [name ...]   every seeded/<name>/patch.diff must make the quick check of its property exit 1
                                         -> seeded/RESULTS.json
+  patch_matrix.py mutants  [name ...]   the same for mutants/<name> (self-written sensitivity tests) -> mutants/RESULTS.json
   patch_matrix.py harmless [name ...]   every harmless/<name>/patch.diff is behaviour-preserving: all 20 quick checks must
                                         exit 0 with it -> harmless/RESULTS.json
 
@@ -17,7 +18,8 @@ import shutil
 import subprocess
 import sys
 
-ROOT = os.path.dirname(os.path.dirname(os.path.abspath(__file__)))
+SRC_ROOT = os.path.dirname(os.path.dirname(os.path.abspath(__file__)))
+ROOT = SRC_ROOT  # replaced by a snapshot of the checks in main(): editing /verif while the matrix runs must not change its verdicts
 SCRATCH = os.environ.get("PYVC_SCRATCH", "/var/tmp/pv/pm")
 ALL = [f"C{i:02d}" for i in range(1, 21)]
 EXTRA = {"C09-1": ["C12"], "C03-2": ["C13"], "C18-1": ["C13"], "C07-2": ["C05"], "C01-1": ["C14"]}
@@ -29,20 +31,26 @@ def sh(*a, **kw):
     return subprocess.run(a, capture_output=True, text=True, **kw)
 
 
+import threading
+
+_GIT = threading.Lock()  # git worktree add / remove are not safe to run concurrently
+
+
 def run_patch(kind, name):
-    d = f"{ROOT}/{'seeded' if kind == 'seeds' else 'harmless'}/{name}"
+    d = f"{ROOT}/{'seeded' if kind == 'seeds' else kind}/{name}"
     meta = json.load(open(f"{d}/meta.json"))
     wt, out = f"{SCRATCH}/{name}", f"{SCRATCH}/{name}.out"
-    shutil.rmtree(wt, ignore_errors=True)
-    sh("git", "-C", "/repo", "worktree", "prune")
-    r = sh("git", "-C", "/repo", "worktree", "add", "-q", "--detach", wt, "HEAD")
+    with _GIT:
+        shutil.rmtree(wt, ignore_errors=True)
+        sh("git", "-C", "/repo", "worktree", "prune")
+        r = sh("git", "-C", "/repo", "worktree", "add", "-q", "--detach", wt, "HEAD")
     if r.returncode:
         return name, dict(error="worktree: " + r.stderr[:200])
     try:
         a = sh("git", "-C", wt, "apply", f"{d}/patch.diff")
         if a.returncode:
             return name, dict(error="patch does not apply: " + a.stderr[:200])
-        props = [meta["property"]] + EXTRA.get(name, []) if kind == "seeds" else ALL
+        props = [meta["property"]] + EXTRA.get(name, []) + meta.get("also", []) if kind != "harmless" else ALL
         entry = dict(summary=meta.get("summary", "")[:160], checks={})
         env = dict(os.environ, PYVC_REPO=wt, PYVC_OUT=out)
         for p in props:
@@ -60,39 +68,47 @@ def run_patch(kind, name):
             if kind == "harmless" and rc != 0:
                 c["output"] = [l[:300] for l in lines if l.startswith(("VIOLATION", "DETAIL", "UNDECIDED", "CHECKER-ERROR"))][:12]
             entry["checks"][p] = c
-        if kind == "seeds":
+        if kind != "harmless":
             entry["detected"] = any(c["exit"] == 1 for c in entry["checks"].values())
         else:
             entry["quiet"] = all(c["exit"] == 0 for c in entry["checks"].values())
         return name, entry
     finally:
-        sh("git", "-C", "/repo", "worktree", "remove", "--force", wt)
-        shutil.rmtree(wt, ignore_errors=True)
-        shutil.rmtree(out, ignore_errors=True)
-        sh("git", "-C", "/repo", "worktree", "prune")
+        with _GIT:
+            sh("git", "-C", "/repo", "worktree", "remove", "--force", wt)
+            shutil.rmtree(wt, ignore_errors=True)
+            shutil.rmtree(out, ignore_errors=True)
+            sh("git", "-C", "/repo", "worktree", "prune")
 
 
 def main():
     kind = sys.argv[1]
-    base = f"{ROOT}/{'seeded' if kind == 'seeds' else 'harmless'}"
+    base = f"{SRC_ROOT}/{'seeded' if kind == 'seeds' else kind}"
     names = sorted(d for d in os.listdir(base) if os.path.isdir(f"{base}/{d}"))
     if len(sys.argv) > 2:
         names = [n for n in names if n in sys.argv[2:]]
     os.makedirs(SCRATCH, exist_ok=True)
+    global ROOT
+    snap = f"{SCRATCH}/verif-snapshot-{os.getpid()}"
+    subprocess.run(["rsync", "-a", "--delete", "--exclude", ".venv", "--exclude", ".git", "--exclude", "replay", "--exclude", "evidence", "--exclude", ".scratch", "--exclude", "__pycache__", SRC_ROOT + "/", snap + "/"], check=True)
+    os.symlink(SRC_ROOT + "/.venv", snap + "/.venv")
+    ROOT = snap
     res = {}
     with cf.ThreadPoolExecutor(PAR) as ex:
         for name, entry in ex.map(lambda n: run_patch(kind, n), names):
             res[name] = entry
-            if kind == "seeds":
+            if kind != "harmless":
                 print(name, "DETECTED" if entry.get("detected") else "MISSED", {p: (c["exit"], c["violations"], c["confirmed"]) for p, c in entry.get("checks", {}).items()}, entry.get("error", ""), flush=True)
             else:
                 loud = {p: c["exit"] for p, c in entry.get("checks", {}).items() if c["exit"] != 0}
                 print(name, "QUIET" if entry.get("quiet") else f"ALARM {loud}", entry.get("error", ""), flush=True)
+    shutil.rmtree(snap, ignore_errors=True)
+    base = f"{SRC_ROOT}/{'seeded' if kind == 'seeds' else kind}"
     path = f"{base}/RESULTS.json"
     old = json.load(open(path)) if os.path.exists(path) and len(sys.argv) > 2 else {}
     old.update(res)
     json.dump(old, open(path, "w"), indent=1)
-    key = "detected" if kind == "seeds" else "quiet"
+    key = "detected" if kind != "harmless" else "quiet"
     print(sum(1 for v in old.values() if v.get(key)), "of", len(old), key)
 
 
